@@ -17,7 +17,7 @@ from concurrent.futures import ThreadPoolExecutor
 from pathlib import Path
 
 from harness.common import ROCQ, Ck, _split_evals, _unlimit_stack, coq_list, coq_str, parse_coq_N_list
-from translate import c18_guard, c18_ops
+from translate import c18_census, c18_guard, c18_ops
 
 MANIFEST = dict(
     technique='Rocq proof (POSIX join/normpath/abspath on character lists; soundness of every segment-wise guard form by '
@@ -78,7 +78,7 @@ MANIFEST = dict(
          'the history search on the implementation is the backstop.',
 )
 
-IMPORTS = ['SV.SM.PathNorm', 'SV.SM.PathNormEnum', 'SV.SM.PathOps', 'SV.SM.PathWalkRel', 'SV.SM.PathMemo', 'SV.SM.PathHistory', 'SV.Gen.Containment_gen', 'SV.Gen.FsOps_gen', 'SV.Props.C18', 'Coq.NArith.NArith',
+IMPORTS = ['SV.SM.PathNorm', 'SV.SM.PathNormEnum', 'SV.SM.PathOps', 'SV.SM.PathWalkRel', 'SV.SM.PathMemo', 'SV.SM.PathHistory', 'SV.SM.PathProperty', 'SV.Gen.Containment_gen', 'SV.Gen.FsOps_gen', 'SV.Gen.FsCensus_gen', 'SV.Props.C18', 'Coq.NArith.NArith',
            'Coq.Lists.List']
 PRE = 'Import ListNotations.\n'
 CWD = '/w/cwd'
@@ -1177,6 +1177,7 @@ def run(ck: Ck) -> None:
     searched, ties_before = False, 0
     ok_t = ck.translate('Containment_gen', c18_guard.translate)
     ok_t = ck.translate('FsOps_gen', c18_ops.translate) and ok_t
+    ok_t = ck.translate('FsCensus_gen', c18_census.translate) and ok_t
     side = ck.extra.get('translated', {}).get('Containment_gen', {})
     RESOLVE_METHOD[0] = side.get('resolve_method', '_resolve_path')
     built = ok_t and ck.build(['Props/C18.vo', 'SM/PathNormEnum.vo'])
@@ -1197,7 +1198,23 @@ def run(ck: Ck) -> None:
             'no_method_of_the_file_system_classes_is_wrapped': 'no_method_of_the_file_system_classes_is_wrapped',
             # no module / class level table, mutable default or method-object state readable by a second file-system object
             'file_system_methods_share_no_mutable_state': 'file_system_methods_share_no_mutable_state',
+            # round 4: the same questions asked of every module below src/srctools (Gen/FsCensus_gen.v)
+            'no_monkey_patch_of_the_file_system_classes_or_path_library_in_the_package': 'nilb foreign_patches',
+            'no_subclass_of_raw_file_system_redefines_a_method_in_the_package': 'nilb foreign_subclasses',
+            'neutral_decorators_are_the_library_ones': 'nilb decorator_origins',
+            'no_cached_function_of_another_module_is_reached': 'nilb reachable_foreign_caches',
+            'file_system_objects_keep_no_table_or_outside_state': 'objects_keep_no_table_or_outside_state',
+            'entry_points_land_on_access_methods': 'entry_points_land_on_access_methods',
+            # the hypothesis of c18_property / c18_property_today for the record of all generated objects
+            'c18_property_hypotheses_hold_for_todays_source': 'c18_property_hypotheses_hold_today',
         })
+        cen_side = ck.extra.get('translated', {}).get('FsCensus_gen', {})
+        for k in ('foreign_patches', 'foreign_subclasses', 'decorator_origins', 'reachable_foreign_caches', 'per_object_state',
+                  'entry_unread'):
+            for w in cen_side.get(k, []):
+                ck.notes.append(f'package census {k}: ' + ' / '.join(w))
+        for c_, m_, mm_, p_ in cen_side.get('entry_points', []):
+            ck.hist('entry_point', f'{c_}.{m_}->{mm_}({p_})')
         for w in side.get('resolve_path_wrappers', []) + ck.extra.get('translated', {}).get('FsOps_gen', {}).get('method_wrappers', []):
             ck.notes.append('wrapper between callers and a method body: ' + ' / '.join(w))
         ops_side = ck.extra.get('translated', {}).get('FsOps_gen', {})
@@ -1251,6 +1268,12 @@ def run(ck: Ck) -> None:
         ck.explain('instance:resolve_path_is_called_unwrapped')
         ck.explain('instance:no_method_of_the_file_system_classes_is_wrapped')
         ck.explain('instance:file_system_methods_share_no_mutable_state')
+        for nm in ('no_monkey_patch_of_the_file_system_classes_or_path_library_in_the_package',
+                   'no_subclass_of_raw_file_system_redefines_a_method_in_the_package', 'neutral_decorators_are_the_library_ones',
+                   'no_cached_function_of_another_module_is_reached', 'file_system_objects_keep_no_table_or_outside_state',
+                   'entry_points_land_on_access_methods', 'c18_property_hypotheses_hold_for_todays_source'):
+            ck.explain('instance:' + nm)
+        ck.explain('translate:FsCensus_gen')
         ck.explain('translate:FsOps_gen')
         ck.explain('instance:root_')
         ck.explain('instance:constrain_flag')
